@@ -68,6 +68,17 @@ Theorem C18_const_string_arg_transparent :
 Proof. exact const_string_arg_transparent. Qed.
 Print Assumptions C18_const_string_arg_transparent.
 
+(* spelling_is_not_meaning: every read of the source text of a filter (FilterExpr.Src) in the engine only labels the filter that
+   is being built; the text -- in which equal names mean different things in different groups -- decides nothing *)
+Theorem C18_spelling_is_not_meaning :
+  forall r, In r gen_filter_src_reads ->
+  exists fn, r = ("ir_loader.go: " ++ fn ++ ": result := matchFilter{src: filter.Src}")%string.
+Proof.
+  intros r H. rewrite filter_src_reads in H. cbn [In] in H.
+  destruct H as [H|[H|[H|[]]]]; subst r; [exists "newFilter"|exists "newBinaryExprFilter"|exists "newBinaryExprFilter"]; reflexivity.
+Qed.
+Print Assumptions C18_spelling_is_not_meaning.
+
 (* non-vacuity *)
 Definition ex_mx := EIndex None (EIdent None "m") (ELit (Some (CStr "x")) LString (Some (CStr "x"))).
 (* f := func(v dsl.Var, s string) bool { return v.Type.Is(s) && v.Type.Size == 8 } ; f(m["x"], "int") *)
